@@ -1,9 +1,9 @@
-\* quick, top-file: every tree of <= 2 sub-directories out of {.idea, east, tea} x 2 languages x 4 file
+\* quick, top-file: every tree of <= 2 sub-directories out of {.idea, east, tea} x 2 languages x 3 file
 \* options (up to 3 files with ties) per (directory, language), --top-size 0/1/2, DIR passed as "tree"
 \* and as "w/tree" (the spelling with a separator exposes the TrimLeft cutset defect, tagged)
 SPECIFICATION Spec
 CONSTANTS
-  Shape = "top2"
+  Shape = "top2q"
   Roots = {"tree", "w/tree"}
   ExtFilters = {"none"}
   Tops = {0, 1, 2}
